@@ -1105,6 +1105,16 @@ func (m *machine) evalInstr(fr *frame, v ssa.Value) AV {
 	case *ssa.MakeMap:
 		return avRef{"map"}
 	case *ssa.MakeSlice:
+		// a slice of concrete length: that many fresh (zero) elements
+		if n, ok := m.eval(fr, x.Len).(avInt); ok && n.atom == "" && n.conc >= 0 && n.conc <= 64 {
+			if st, isSl := x.Type().Underlying().(*types.Slice); isSl {
+				cs := make([]*cell, n.conc)
+				for i := range cs {
+					cs[i] = &cell{typ: st.Elem(), sym: fmt.Sprintf("elem%d", i), have: true, val: m.zero(st.Elem())}
+				}
+				return avSlice{cells: cs}
+			}
+		}
 		return avOpaque{"makeslice"}
 	case *ssa.Select:
 		name := fmt.Sprintf("select@%s", fname(fr.fn))
